@@ -15,6 +15,15 @@ Every case is a Python *program text* defining `build(rng)` -> module (its input
   H   histories: response() again, other input states, back to the first ones; compared with a fresh module where the module has no
       documented memory
 
+A second protocol (`structured`, also part of the text) repeats clause L with STRUCTURED seeds, where a contribution can be skipped silently:
+  T   seeds that are constant (all ones, all 2.5), have a single non-zero entry, zero entries / one zero column next to non-zero ones, identical columns, a constant column
+      next to generic ones (matrix outputs: the same as carriers and dense arrays), and sums of such seeds: g(w1) + g(w2) = g(w1 + w2) for neighbouring pairs, g(a w) = a g(w)
+      for a in {2.5, -1, 0.5}, the sum of all, every output alone adding up to the joint seed; each g(w) also against a reference derivative <g(w), D> = d/dt <w, y(x + t D)>
+      (central differences, t = 1e-6, tolerance 1e-5 of sum |g||D| + |w||dy/dt|; D = a second draw of the inputs minus the first, so it stays in the matrix class). For EigenSolve
+      y(.) is an independent dense eigen-decomposition with the module's normalisation (eig_ref: numpy.linalg.eigh / eig, q.B.q = 1, sign by mean, k nearest sigma; spectra with
+      gaps >= 0.5; tolerance 1e-6), never the module; elsewhere y(.) is the module's own response (no reference for modules with a documented memory or AggScaling).
+      Comparisons of T are relative to |g| plus the largest |g| over the structured seeds of the case (a constant seed can be annihilated exactly, e.g. all ones on a stiffness matrix).
+
 The reference for L/A/Z is computed from separately obtained g(w1), g(w2) (the clause is a relation between runs); states are compared
 with deep snapshots (value, dtype, shape, object identity). Data are well conditioned (diagonally dominant matrices, positive densities),
 so every comparison uses a norm-wise relative tolerance of 1e-9 (1e-6 where an iterative solver or ARPACK is involved).
@@ -23,6 +32,9 @@ Findings kept visible:  C04-soe-overwrites-input  SystemOfEquations / StaticCond
 matrix signal by the free-free block (they hand their own input signal to the internal LinSolve and assign its state).
 C04-einsum-partial-sum-raises  EinSum('ij->j'), EinSum('i,j->') (an index summed out that occurs in one operand only): sensitivity() raises (the adjoint expression 'j->ij' is not an einsum).
 C04-concat-scalar-raises  ConcatSignal with a python-scalar input state: sensitivity() raises TypeError (float() of a length-1 array, numpy >= 2).
+C04-lda-dependent-seed-columns  LinSolve (also inside SystemOfEquations / StaticCondensation) with LDAWrapper and a block right-hand side: back-propagating a seed whose non-zero columns are
+linearly dependent (all ones, identical columns) stores a normalised round-off vector as a solution pair (root cause C06-dependent-block-garbage); every later sensitivity() until the next
+response() is wrong by ~1e-3, so g(w1) + g(w2) != g(w1 + w2).  The full structured seed set is tagged in that region, the seeds with independent columns are checked untagged.
 """
 import re
 import signal
@@ -311,15 +323,227 @@ def protocol(build, seed, tol=1e-9, reps=3, stateless=True, matseed='dyad', hist
         import traceback
         fail('raises', '%s during %s: %s' % (type(e).__name__, stage, str(e).splitlines()[0][:200] if str(e) else ''))
     return F
+
+
+def struct_seeds(y, rng, matseed='dyad', indep=False):
+    """STRUCTURED output sensitivities of the kind of the output state y, as (name, w): constant fields (all ones, all 2.5), a single non-zero entry, zero entries / a zero
+    column next to non-zero ones, identical columns, a constant column next to generic ones, and one generic seed.  indep=True leaves out the 2-D seeds whose non-zero
+    columns are linearly dependent (constant fields, identical columns, rank-one carriers)"""
+    out = _struct_seeds(y, rng, matseed)
+    if indep and y is not None and np.ndim(y) == 2 and min(np.shape(y)) >= 2:
+        out = [(nm, w) for nm, w in out if nm not in ('all ones', 'all 2.5', 'identical columns', 'zero dyad next to a non-zero one', 'identical dyads')]
+    return out
+
+
+def _struct_seeds(y, rng, matseed='dyad'):
+    if y is None:
+        return []
+    cplx = np.iscomplexobj(y) if not sp.issparse(y) else np.iscomplexobj(y.data)
+    ph = (0.6 + 0.8j) if cplx else 1.0
+    rnd = lambda *s_: rng.standard_normal(s_) + (1j * rng.standard_normal(s_) if cplx else 0.0)
+    if (sp.issparse(y) or isinstance(y, np.matrix)) and matseed != 'dense':
+        n, k = y.shape
+        u, v, u2, v2 = rnd(n), rng.standard_normal(k), rnd(n), rng.standard_normal(k)
+        ei, ej = np.zeros(n), np.zeros(k)
+        ei[n // 2], ej[k - 1] = 1.7, 1.0
+        return [('all ones', D(np.ones(n) * ph, np.ones(k))), ('all 2.5', D(2.5 * np.ones(n) * ph, np.ones(k))), ('single entry', D(ei * ph, ej)),
+                ('zero dyad next to a non-zero one', D([u, 0 * u2], [v, v2])), ('identical dyads', D([u, u], [v, v])), ('constant dyad + generic dyad', D([np.ones(n) * ph, u2], [np.ones(k), v2])),
+                ('generic', D([u, u2], [v, v2]))]
+    if sp.issparse(y) or isinstance(y, np.matrix):
+        y = np.zeros(y.shape, dtype=complex if cplx else float)
+    if not isinstance(y, np.ndarray) or y.ndim == 0:
+        mk = (lambda c: np.array(c)) if isinstance(y, np.ndarray) else (lambda c: complex(c) if cplx else float(c))
+        return [('one', mk(1.0 * ph)), ('2.5', mk(2.5 * ph)), ('generic', mk(complex(rnd(1)[0]) if cplx else float(rnd(1)[0])))]
+    one = np.ones(y.shape) * ph
+    single = np.zeros(y.shape, dtype=one.dtype)
+    single.reshape(-1)[y.size // 2] = 1.7 * ph
+    out = [('all ones', one), ('all 2.5', 2.5 * one), ('single entry', single)]
+    if y.ndim == 1:
+        w = rnd(*y.shape)
+        w[::2] = 0.0
+        out.append(('every other entry zero', w))
+    if y.ndim == 2:
+        n, k = y.shape
+        w = rnd(n, k)
+        w[:, 0] = 0.0
+        out.append(('zero column next to non-zero ones', w))
+        out.append(('identical columns', np.repeat(rnd(n, 1), k, axis=1)))
+        w = rnd(n, k)
+        w[:, k - 1] = 1.0 * ph
+        out.append(('constant column next to generic ones', w))
+        w = np.zeros((n, k), dtype=one.dtype)
+        w[:, k // 2] = 2.5 * ph
+        out.append(('one constant column, the others zero', w))
+    out.append(('generic', rnd(*y.shape)))
+    return out
+
+
+def eig_ref(A, B=None, k=None, sigma=0.0, like=None):
+    """Independent dense eigen-decomposition with the normalisation of EigenSolve: q.B.q = 1 (bilinear), sign such that Re(mean(q)) >= 0, the k eigenvalues nearest
+    sigma in ascending order.  numpy.linalg.eigh (Cholesky-reduced for a generalised problem) for Hermitian A, numpy.linalg.eig otherwise (real, well separated spectra)"""
+    A = dn(A)
+    B = None if B is None else dn(B)
+    herm = np.allclose(A, A.conj().T, rtol=0, atol=1e-13 * np.abs(A).max()) and (B is None or np.allclose(B, B.conj().T, rtol=0, atol=1e-13))
+    if herm and B is not None:
+        Li = np.linalg.inv(np.linalg.cholesky(B))
+        w, Y = np.linalg.eigh(Li @ A @ Li.conj().T)
+        V = Li.conj().T @ Y
+    elif herm:
+        w, V = np.linalg.eigh(A)
+    else:
+        w, V = np.linalg.eig(A if B is None else np.linalg.solve(B, A))
+    V = np.array(V, dtype=complex if (np.iscomplexobj(V) or np.iscomplexobj(A)) else float)
+    for i in range(w.size):
+        q = V[:, i]
+        q /= np.sqrt(q @ (q if B is None else B @ q))
+        if np.real(np.mean(q)) < 0:
+            q *= -1
+    sel = np.arange(w.size) if k is None else np.argsort(np.abs(w - sigma))[:k]
+    sel = sel[np.argsort(w[sel])]
+    w, V = w[sel], V[:, sel]
+    if like is not None and np.iscomplexobj(V):
+        # complex vectors: the module takes the sign from the un-normalised LAPACK vector (arbitrary phase), so only +-q is defined; the sign of the given Q is followed
+        for i in range(w.size):
+            if np.linalg.norm(V[:, i] + like[:, i]) < np.linalg.norm(V[:, i] - like[:, i]):
+                V[:, i] *= -1
+    return w, V
+
+
+def structured(build, seed, tol=1e-9, matseed='dyad', fd=True, fd_h=1e-6, fd_tol=1e-5, eig=None, indep=False):
+    """Linearity in the seed on STRUCTURED seeds: g(w1) + g(w2) = g(w1 + w2), g(a w) = a g(w), sum of all, every output alone; each g(w) also against a reference derivative:
+    <g(w), D> = d/dt <w, y(x + t D)> by central differences in a direction D that stays in the class of the inputs (a second draw of the inputs minus the first),
+    y(.) being the module's response (fd=True) or, for EigenSolve (eig = dict(k=, sigma=)), the independent dense eigen-decomposition eig_ref.  Returns the violated clauses"""
+    F = []
+
+    def fail(clause, detail=''):
+        if (clause, detail) not in F and len(F) < 12:
+            F.append((clause, detail))
+    rng = np.random.default_rng([seed, 17])
+    m = build(np.random.default_rng([seed, 1]))
+    ins, outs = list(m.sig_in), list(m.sig_out)
+    isl = lambda s: hasattr(s, 'base')
+    uniq = [i for i, s in enumerate(ins) if min(j for j, t in enumerate(ins) if t is s) == i]
+    X = [np.array(s.state, copy=True) if isl(s) else s.state for s in ins]
+
+    def put_inputs(XX):
+        for s, x in zip(ins, XX):
+            s.state = np.array(x, copy=True) if isl(s) else x
+
+    def respond(XX):
+        put_inputs(XX)
+        m.response()
+        put_inputs(XX)      # (a module that replaces the state of its input is reported by protocol())
+        return [s.state for s in outs]
+
+    def run(W):
+        m.reset()
+        for s, w in zip(outs, W):
+            s.sensitivity = copy.deepcopy(w)
+        m.sensitivity()
+        return [dn(s.sensitivity) for s in ins]
+
+    def inner(a, b):
+        return complex(np.sum(dn(a) * dn(b)))
+    stage = 'build'
+    try:
+        stage = 'first response()'
+        Y = respond(X)
+        nout = len(outs)
+        S = [struct_seeds(y, rng, matseed, indep) for y in Y]
+        if not nout or not any(S):
+            return F
+        L = max(len(sj) for sj in S)
+        sets = [('joint: ' + ' / '.join(sj[i % len(sj)][0] for sj in S if sj), [sj[i % len(sj)][1] if sj else None for sj in S]) for i in range(L)]
+        groups = [list(range(L))]
+        if nout >= 2:
+            for j, sj in enumerate(S):
+                groups.append(list(range(len(sets), len(sets) + len(sj))))
+                sets += [('only output %d: %s' % (j, nm), [w if i == j else None for i in range(nout)]) for nm, w in sj]
+        # reference derivative
+        dref = None
+        if fd or eig is not None:
+            stage = 'reference derivative'
+            m2 = build(np.random.default_rng([seed, 2]))
+            X2 = [copy.deepcopy(s.state) for s in m2.sig_in]
+            Dir = [x2 - x for x, x2 in zip(X, X2)]
+            Xp, Xm = [x + fd_h * d for x, d in zip(X, Dir)], [x - fd_h * d for x, d in zip(X, Dir)]
+            if eig is not None:
+                Y0 = eig_ref(*X, like=Y[1], **eig)
+                for j, (y, y0) in enumerate(zip(Y, Y0)):
+                    if not close(y, y0, nrm(y0), 1e-8):
+                        fail('the response differs from the independent dense eigen-decomposition', 'output %d' % j)
+                Yp, Ym = eig_ref(*Xp, like=Y[1], **eig), eig_ref(*Xm, like=Y[1], **eig)
+            else:
+                Yp = [dn(y) for y in respond(Xp)]
+                Ym = [dn(y) for y in respond(Xm)]
+                Yb = respond(X)
+                for j, (y, yb) in enumerate(zip(Y, Yb)):
+                    if y is not None and not close(y, yb, nrm(y), 1e-7):
+                        fail('set-up', 'the response is not reproduced after other inputs: no reference derivative for this case (output %d)' % j)
+            dref = [(dn(yp) - dn(ym)) / (2 * fd_h) for yp, ym in zip(Yp, Ym)]
+        stage = 'sensitivity()'
+        G = []
+        for nm, W in sets:
+            g = run(W)
+            G.append(g)
+            if dref is not None:
+                stage = 'reference derivative'
+                got = sum(inner(g[i], Dir[i]) for i in uniq).real
+                want = sum(inner(w, d) for w, d in zip(W, dref) if w is not None).real
+                scale = sum(nrm(g[i]) * nrm(Dir[i]) for i in uniq) + sum(nrm(w) * nrm(d) for w, d in zip(W, dref) if w is not None)
+                if not (np.isfinite(got) and abs(got - want) <= fd_tol * scale):
+                    fail('the sensitivity for a structured seed differs from the reference derivative (a contribution is missing or wrong)',
+                         '%s: <g, D> = %.9g, reference d<w, y>/dt = %.9g, scale %.3g' % (nm, got, want, scale))
+                stage = 'sensitivity()'
+        N = [[nrm(x) for x in g] for g in G]
+        if not any(any(n) for n in N) and len(ins):
+            fail('set-up', 'every structured seed gives an identically zero sensitivity')
+        # a structured seed may be annihilated exactly (all ones on a stiffness matrix: rigid-body mode), leaving round-off of the terms that cancel: every comparison is
+        # relative to the sensitivity itself PLUS the largest sensitivity any of these O(1) seeds produces on that input
+        top = [max(n[t] for n in N) for t in range(len(ins))]
+        N = [[n[t] + top[t] for t in range(len(ins))] for n in N]
+        stage = 'linearity'
+        for gi, grp in enumerate(groups):
+            for q, i in enumerate(grp):
+                a = (2.5, -1.0, 0.5)[q % 3]
+                g = run(lin(a, sets[i][1], 0.0, [None] * nout))
+                for t in range(len(ins)):
+                    if not close(g[t], a * G[i][t], abs(a) * N[i][t], tol):
+                        fail('g(a w) != a g(w) for a structured seed', '%s, a=%g, input %d: |got - want| = %.3g, scale %.3g' % (sets[i][0], a, t, nrm(g[t] - a * G[i][t]), abs(a) * N[i][t]))
+                i2 = grp[(q + 1) % len(grp)]
+                if i2 != i:
+                    g = run(lin(1.0, sets[i][1], 1.0, sets[i2][1]))
+                    for t in range(len(ins)):
+                        if not close(g[t], G[i][t] + G[i2][t], N[i][t] + N[i2][t], tol):
+                            fail('g(w1) + g(w2) != g(w1 + w2) for structured seeds', 'w1 = %s, w2 = %s, input %d: |got - want| = %.3g, scale %.3g' % (sets[i][0], sets[i2][0], t, nrm(g[t] - G[i][t] - G[i2][t]), N[i][t] + N[i2][t]))
+            tot = sets[grp[0]][1]
+            for i in grp[1:]:
+                tot = lin(1.0, tot, 1.0, sets[i][1])
+            g = run(tot)
+            for t in range(len(ins)):
+                want = sum(G[i][t] for i in grp)
+                if not close(g[t], want, sum(N[i][t] for i in grp), tol):
+                    fail('the sum of all structured seeds does not give the sum of their sensitivities', 'group %d, input %d' % (gi, t))
+        if nout >= 2:     # every output alone adds up to the joint seed
+            for q in range(min(len(sj) for sj in S if sj)):
+                parts = [groups[1 + j][q] for j in range(nout) if S[j]]
+                for t in range(len(ins)):
+                    if not close(G[q][t], sum(G[i][t] for i in parts), N[q][t] + sum(N[i][t] for i in parts), tol):
+                        fail('seeding every output alone does not add up to the jointly seeded result', '%s, input %d' % (sets[q][0], t))
+    except Exception as e:
+        fail('raises', '%s during %s: %s' % (type(e).__name__, stage, str(e).splitlines()[0][:200] if str(e) else ''))
+    return F
 '''
 
 PRE = REPLAY_HEAD + HELPER
 _BASE = {}
 exec(compile(PRE, '<C04 helper>', 'exec'), _BASE)
 
+EVERY = {'elementwise': 1, 'generic': 1, 'linsolve': 1, 'eigen_systems': 1, 'assembly': 2, 'element_ops': 1, 'filters': 2}   # quick tier: structured() on every k-th case of a family
 F_SOE = 'C04-soe-overwrites-input'
 F_EINSUM = 'C04-einsum-partial-sum-raises'
 F_CONCAT = 'C04-concat-scalar-raises'
+F_LDA = 'C04-lda-dependent-seed-columns'
 
 
 class Timeout(Exception):
@@ -333,10 +557,10 @@ def _alarm(*_):
 HANGS = [0]
 
 
-def execute(r, late, group, key, src, opts, seed, known=None):
+def execute(r, late, group, key, src, opts, seed, known=None, fn='protocol'):
     """run the protocol on one case; finding-tagged failures are emitted last (see flush)"""
-    r.case((group,) + tuple(key))
-    call = f"fails = protocol(build, {seed}, **{opts!r})\nprint(fails)\nassert not fails, fails\n"
+    r.case((group,) + tuple(key) + (() if fn == 'protocol' else (fn,)))
+    call = f"fails = {fn}(build, {seed}, **{opts!r})\nprint(fails)\nassert not fails, fails\n"
     replay = PRE + src + "\n" + call
     ns = dict(_BASE)
     if HANGS[0] >= 3:
@@ -346,7 +570,7 @@ def execute(r, late, group, key, src, opts, seed, known=None):
     signal.setitimer(signal.ITIMER_VIRTUAL, 20.0)      # a case takes some 10 ms; a loop that never ends must not block the check
     try:
         exec(src, ns)
-        fails = ns['protocol'](ns['build'], seed, **opts)
+        fails = ns[fn](ns['build'], seed, **opts)
     except Timeout:
         HANGS[0] += 1
         fails = [('does not terminate', 'no result after 20 s')]
@@ -381,20 +605,86 @@ DOM = {'2d': "pym.DomainDefinition(3, 2, unitx=0.5, unity=1.5, unitz=2.0)", '2d-
        '3d-big': "pym.DomainDefinition(3, 2, 3, unitx=1.0, unity=1.0, unitz=0.7)"}
 
 
-def runall(r, tier, seed, group, cases):
+def runall(r, tier, seed, group, cases, structured=None, every=1):
+    """protocol() on every case; structured() (structured seeds, reference derivative) on the cases for which structured(key, opts) returns its options:
+    every case [thorough] / every `every`-th case of each family (first key component) [quick]"""
     late = {}
     HANGS[0] = 0
     nseed = 1 if tier == 'quick' else 4
+    count = {}
     for key, src, opts, known in cases:
         for k in range(nseed):
             execute(r, late, group, key if nseed == 1 else key + (k,), src, opts, seed * 1000 + k, known)
+        passes = structured(key, opts) if structured else None
+        if passes is None:
+            continue
+        count[key[0]] = count.get(key[0], 0) + 1
+        if tier == 'quick' and (count[key[0]] - 1) % every:
+            continue
+        for sopts, more in (passes if isinstance(passes, list) else [(passes, None)]):
+            kn = dict(known or {}, **(more or {}))
+            tag = ('indep',) if sopts.get('indep') else ()
+            for k in range(1 if tier == 'quick' else 2):
+                execute(r, late, group, key + tag if tier == 'quick' else key + tag + (k,), src, sopts, seed * 1000 + k, kn, fn='structured')
     flush(r, late)
+
+
+def sopts_of(opts, **kw):
+    """options of structured() from the options of protocol(): same tolerance and matrix-seed kind; no reference derivative for modules with a documented memory"""
+    o = {k: v for k, v in opts.items() if k in ('tol', 'matseed')}
+    if opts.get('stateless') is False:
+        o['fd'] = False
+    o.update(kw)
+    return o
+
+
+def st_elementwise(key, opts):
+    if key[0] == 'user':                                                 # framework mechanics (aliases, None, python floats, overlapping slices): linearity only
+        return sopts_of(opts, fd=False)
+    if key[0] in ('PNorm', 'KSFunction', 'SoftMinMax') and key[2]:       # AggScaling: the scaling factor is treated as a constant by design, no derivative reference
+        return sopts_of(opts, fd=False)
+    return sopts_of(opts)
+
+
+def st_default(key, opts):
+    return sopts_of(opts)
+
+
+LDA_KNOWN = {r"(g\(w1\) \+ g\(w2\) != g\(w1 \+ w2\) for structured seeds|g\(a w\) != a g\(w\) for a structured seed|the sum of all structured seeds does not give the sum of their sensitivities|"
+             r"the sensitivity for a structured seed differs from the reference derivative \(a contribution is missing or wrong\)|seeding every output alone does not add up to the jointly seeded result) \| .*": F_LDA}
+
+
+def lda_region(o):
+    """LDAWrapper + block right-hand side: a seed whose non-zero columns are linearly dependent (all ones, identical columns) makes the wrapper store a normalised round-off
+    vector as a solution pair (C06-dependent-block-garbage); every later back-propagation until the next response() is then wrong by ~1e-3, so g is not additive.  The full
+    set of structured seeds is tagged with the finding; the seeds with independent columns must hold untagged"""
+    return [(dict(o), LDA_KNOWN), (dict(o, indep=True), None)]
+
+
+def st_linsolve(key, opts):
+    if key[1] == 'CG':      # iterative solver (tol 1e-10): larger step, looser reference
+        return sopts_of(opts, fd_h=1e-4, fd_tol=1e-3)
+    if key[0] == 'LinSolve' and 'plain' not in key and 'vec' not in key and 'cvec' not in key:
+        return lda_region(sopts_of(opts))
+    return sopts_of(opts)
+
+
+EIG_REF = {'dense sym': {}, 'dense sym flag': {}, 'dense generalized': {}, 'dense hermitian': {}, 'dense general': {}, 'sparse sym': dict(k=3), 'sparse generalized': dict(k=3), 'sparse shifted': dict(k=2, sigma=7.1)}
+
+
+def st_eigen(key, opts):
+    if key[0] == 'EigenSolve':     # reference derivative from the independent dense eigen-decomposition, never from the module
+        return sopts_of(opts, fd=False, eig=EIG_REF[key[1]], fd_tol=1e-6)
+    if key[0] == 'StaticCondensation' or (key[0] == 'SystemOfEquations' and key[-1] == ', 2'):      # inner LinSolve with LDAWrapper and block right-hand sides
+        return lda_region(sopts_of(opts))
+    return sopts_of(opts)
 
 
 # ---------------------------------------------------------------------------------------------------------- element-wise
 @bound('Scaling (plain / minval / maxval; vector, length-1, scalar, slice in- and outputs), MakeComplex, RealPart, ImagPart, ComplexNorm (vectors, matrices, scalars), PNorm / KSFunction / SoftMinMax '
        '(positive and negative parameter, with/without AggScaling(max|min, damping 0 / 0.5) and AggActiveSet), user modules that return the seed object itself, python floats or None, a signal used twice; '
-       '1 seed set [quick] / 4 [thorough]; protocol R,S,L,A,Z,H with (a,b) in {(1,1),(2,-.5),(0,1),(-3.5,0),(0,0),(1e3,1e-3)}, 3 repetitions')
+       '1 seed set [quick] / 4 [thorough]; protocol R,S,L,A,Z,H with (a,b) in {(1,1),(2,-.5),(0,1),(-3.5,0),(0,0),(1e3,1e-3)}, 3 repetitions; protocol T (structured seeds: all ones, all 2.5, single entry, zero entries / zero column, '
+       'identical columns, constant column, sums; reference derivative by central differences except user modules, modules with memory and AggScaling) on every case, 1 [quick] / 2 [thorough] data seeds')
 def elementwise(r, tier, seed):
     cs = []
     for opt, sl in (("scaling=10.0", False), ("scaling=2.0, minval=0.3", True), ("scaling=5.0, maxval=2.0", True)):
@@ -449,12 +739,12 @@ class Twice(pym.Module):       # one vector feeds two outputs
     cs.append((('user', 'matrix slices'), B("sx = pym.Signal('x', rng.standard_normal((4, 3)))\nreturn pym.EinSum([sx[1:3, :], sx[0, :]], pym.Signal('y'), expression='ij,j->i')"), {}, None))
     cs.append((('user', 'keep_alloc input'), B("return pym.EinSum([pym.Signal('a', rng.standard_normal(3), sensitivity=np.zeros(3)), pym.Signal('b', rng.standard_normal(3))], pym.Signal('y'), expression='i,i->')"), {}, None))
     cs.append((('user', 'overlapping slices'), B("sx = pym.Signal('x', rng.standard_normal(6))\nreturn pym.EinSum([sx[0:4], sx[2:6]], pym.Signal('y'), expression='i,i->i')"), {}, None))
-    runall(r, tier, seed, 'elementwise', cs)
+    runall(r, tier, seed, 'elementwise', cs, st_elementwise, EVERY['elementwise'])
 
 
 # --------------------------------------------------------------------------------------------------------------- generic
 @bound('EinSum for 15 expressions (sums, trace, inner/outer products, matrix-vector, quadratic form, projection, element-wise, transposed) with real, complex and mixed operands; '
-       'ConcatSignal of vectors of unequal length, length-1 vectors, python scalars and slices; same protocol')
+       'ConcatSignal of vectors of unequal length, length-1 vectors, python scalars and slices; same protocols (R,S,L,A,Z,H and T with reference derivative on every case)')
 def generic(r, tier, seed):
     cs = []
     R = lambda s: f"rng.standard_normal({s})"
@@ -473,7 +763,7 @@ def generic(r, tier, seed):
     cs.append((('Concat', 'single'), B("return pym.ConcatSignal([pym.Signal('a', rng.standard_normal(3))], pym.Signal('y'))"), {}, None))
     cs = [(k, s_, o, {r"raises \| ValueError during sensitivity\(\): Output character . did not appear in the input": F_EINSUM} if k[:2] in (('EinSum', 'ij->j'), ('EinSum', 'i,j->')) else
            ({r"raises \| TypeError during sensitivity\(\): only 0-dimensional arrays can be converted to Python scalars": F_CONCAT} if k == ('Concat', 'scalars') else kn)) for k, s_, o, kn in cs]
-    runall(r, tier, seed, 'generic', cs)
+    runall(r, tier, seed, 'generic', cs, st_default, EVERY['generic'])
 
 
 # ---------------------------------------------------------------------------------------------------------- linear algebra
@@ -489,7 +779,8 @@ MATS = {'spd': "Rm = rng.standard_normal((n, n))\nA = Rm + Rm.T + 2 * n * np.eye
 
 @bound('Inverse (real/complex, n in {1,4}); LinSolve with dense and csc/csr matrices of the classes spd, symmetric indefinite, general, Hermitian, complex symmetric, complex general, diagonal, '
        'tridiagonal; right-hand sides vector / block of 3 / complex on a real dense matrix; flags hermitian/symmetric given or detected; solver overridden (dense LU, sparse LU, CG+ILU); '
-       'LDAWrapper on and off; same protocol (tolerance 1e-6 for CG)')
+       'LDAWrapper on and off; same protocols (tolerance 1e-6 for CG; T on every case, reference derivative with t = 1e-4 / tolerance 1e-3 for CG); LDAWrapper with a block right-hand side: T with all structured seeds '
+       '(region of C04-lda-dependent-seed-columns) and T restricted to seeds with linearly independent non-zero columns (must hold)')
 def linsolve(r, tier, seed):
     cs = []
     for k, n in (('gen', 1), ('gen', 4), ('cgen', 4), ('spd', 3)):
@@ -519,11 +810,13 @@ def linsolve(r, tier, seed):
     for pc in ("pym.solvers.ILU()", "pym.solvers.DampedJacobi(w=0.8)", "pym.solvers.SOR(w=1.0)"):
         cs.append((('LinSolve', 'CG', pc), B(f"n = 8\n{MATS['tridiag']}\nA = sp.csc_matrix(A)\nreturn pym.LinSolve([pym.Signal('A', A), pym.Signal('b', rng.standard_normal(n))], pym.Signal('x'), solver=pym.solvers.CG(preconditioner={pc}, tol=1e-10))"),
                    dict(tol=1e-6), None))
-    runall(r, tier, seed, 'linsolve', cs)
+    runall(r, tier, seed, 'linsolve', cs, st_linsolve, EVERY['linsolve'])
 
 
 @bound('EigenSolve: dense symmetric (standard and generalized, n = 5), dense Hermitian complex, dense general real, sparse symmetric with nmodes = 3 (standard / generalized / shifted); seeds on eigenvalues and '
-       'eigenvectors, each alone and together; SystemOfEquations (csc symmetric; free / prescribed / both given, unsorted index sets, one or two load cases, complex) and StaticCondensation (dense and carrier seeds); same protocol')
+       'eigenvectors, each alone and together; SystemOfEquations (csc symmetric; free / prescribed / both given, unsorted index sets, one or two load cases, complex) and StaticCondensation (dense and carrier seeds); same protocols; '
+       'T for EigenSolve: structured seeds on eigenvalues (n,) and eigenvectors (n, k) jointly and each alone, every g(w) against central differences (t = 1e-6, tolerance 1e-6) of an independent dense eigen-decomposition '
+       '(numpy.linalg.eigh / eig, normalisation q.B.q = 1, sign by mean, k modes nearest sigma; eigenvalue gaps >= 0.5), also the response itself against it (1e-8); two load cases / StaticCondensation: as the LDAWrapper block region of linsolve')
 def eigen_systems(r, tier, seed):
     cs = []
     sym = "n = 5\nRm = 0.1 * rng.standard_normal((n, n))\nA = np.diag(np.arange(1.0, n + 1)) + Rm + Rm.T\nSm = 0.05 * rng.standard_normal((n, n))\nBm = 2.0 * np.eye(n) + Sm + Sm.T"
@@ -548,12 +841,13 @@ def eigen_systems(r, tier, seed):
                                                    "return pym.SystemOfEquations([pym.Signal('A', A), pym.Signal('bf', rng.standard_normal(4) + 0j), pym.Signal('xp', rng.standard_normal(2) + 0j)], [pym.Signal('x'), pym.Signal('b')], prescribed=np.array([1, 4]))"), {}, known))
     for ms in ('dense', 'dyad', 'dyad1'):
         cs.append((('StaticCondensation', ms), B(f"{base}\nreturn pym.StaticCondensation(pym.Signal('A', A), pym.Signal('Ared'), main=np.array([0, 3]), free=np.array([1, 2, 5, 6]))"), dict(matseed=ms), known))
-    runall(r, tier, seed, 'eigen_systems', cs)
+    runall(r, tier, seed, 'eigen_systems', cs, st_eigen, EVERY['eigen_systems'])
 
 
 # ----------------------------------------------------------------------------------------------------------- finite elements
 @bound('AssembleGeneral (nonsymmetric element matrix, 1 and 2 dofs per node, bc none / list / array, bcdiagval, add_constant, csc/csr/coo matrix types, complex x), AssembleStiffness (plane stress/strain, 3D, bc), '
-       'AssembleMass (1-3 dofs, bcdiagval), AssemblePoisson; domains 3x2, 1x3, 4x1, 2x2x2, 3x2x1 with non-unit element sizes; matrix seeds as real carriers, complex carriers, single dyads and dense arrays; same protocol')
+       'AssembleMass (1-3 dofs, bcdiagval), AssemblePoisson; domains 3x2, 1x3, 4x1, 2x2x2, 3x2x1 with non-unit element sizes; matrix seeds as real carriers, complex carriers, single dyads and dense arrays; same protocols '
+       '(T with structured carriers / dense matrices and reference derivative on every 2nd case of a family [quick] / every case [thorough])')
 def assembly(r, tier, seed):
     cs = []
     x = "sx = pym.Signal('x', 0.2 + rng.random(dom.nel))"
@@ -580,11 +874,11 @@ def assembly(r, tier, seed):
             cs.append((('AssembleMass', d, kw), B(f"dom = {DOM[d]}\n{x}\nreturn pym.AssembleMass(sx, pym.Signal('M'), dom{kw})"), dict(matseed='dyad'), None))
         for kw in ("", ", material_property=0.7, bc=[1]"):
             cs.append((('AssemblePoisson', d, kw), B(f"dom = {DOM[d]}\n{x}\nreturn pym.AssemblePoisson(sx, pym.Signal('P'), dom{kw})"), dict(matseed='dense' if kw else 'dyad'), None))
-    runall(r, tier, seed, 'assembly', cs)
+    runall(r, tier, seed, 'assembly', cs, st_default, EVERY['assembly'])
 
 
 @bound('ElementOperation (matrix over dofs, over nodes repeated per dof, 3-index operator), Strain (voigt on/off), Stress (plane stress/strain, 3D), ElementAverage (1 and 2 dofs per node), NodalOperation, '
-       'ThermoMechanical; real and complex nodal vectors; domains 3x2, 1x3, 2x2x2, 3x2x1; same protocol')
+       'ThermoMechanical; real and complex nodal vectors; domains 3x2, 1x3, 2x2x2, 3x2x1; same protocols (T with reference derivative on every case)')
 def element_ops(r, tier, seed):
     cs = []
     for d in ('2d', '2d-col', '3d', '3d-flat'):
@@ -604,12 +898,13 @@ def element_ops(r, tier, seed):
         cs.append((('NodalOperation', d, 'matrix'), B(f"dom = {DOM[d]}\nsx = pym.Signal('x', rng.standard_normal((3, dom.nel)))\nem = np.arange({3 * en}.0).reshape(3, {en}) / 3 - 2\nreturn pym.NodalOperation(sx, pym.Signal('f'), dom, em)"), {}, None))
         for kw in ("", ", e_modulus=2.0, poisson_ratio=0.25, alpha=1e-2" + (", plane='stress'" if dim == 2 else "")):
             cs.append((('ThermoMechanical', d, kw), B(f"dom = {DOM[d]}\nsx = pym.Signal('x', rng.random(dom.nel))\nreturn pym.ThermoMechanical(sx, pym.Signal('f'), dom{kw})"), {}, None))
-    runall(r, tier, seed, 'element_ops', cs)
+    runall(r, tier, seed, 'element_ops', cs, st_default, EVERY['element_ops'])
 
 
 # ------------------------------------------------------------------------------------------------------------------ filters
 @bound('FilterConv (radius 1.5 / 2.5 relative and absolute, own 3x3 and 3x1 kernels; every side padded symmetric / edge / wrap / constant 0 / constant 1 in mixed combinations; override_values; 2D 3x2, 5x4, 1x3, 3D 2x2x2, 3x2x3), '
-       'DensityFilter (radius 1.2 / 2.5, nonpadding), OverhangFilter (all 4 / 6 axis directions as strings and arrays, 5 and 9 supports in 3D, non-default xi_0/p/eps, single-layer and 1-wide domains); same protocol')
+       'DensityFilter (radius 1.2 / 2.5, nonpadding), OverhangFilter (all 4 / 6 axis directions as strings and arrays, 5 and 9 supports in 3D, non-default xi_0/p/eps, single-layer and 1-wide domains); same protocols '
+       '(T with reference derivative on every 2nd case of a family [quick] / every case [thorough])')
 def filters(r, tier, seed):
     cs = []
     x = "sx = pym.Signal('x', 0.2 + 0.8 * rng.random(dom.nel))"
@@ -639,7 +934,7 @@ def filters(r, tier, seed):
                     continue
                 cs.append((('OverhangFilter', d, di, kw), B(f"dom = {DOM[d]}\n{x}\nreturn pym.OverhangFilter(sx, pym.Signal('y'), dom, direction={di}{kw})"), dict(tol=1e-8), None))
     cs.append((('OverhangFilter', 'default direction'), B(f"dom = {DOM['2d-big']}\n{x}\nreturn pym.OverhangFilter(sx, pym.Signal('y'), dom)"), dict(tol=1e-8), None))
-    runall(r, tier, seed, 'filters', cs)
+    runall(r, tier, seed, 'filters', cs, st_default, EVERY['filters'])
 
 
 # ---------------------------------------------------------------------------------------------------------------- output
